@@ -26,6 +26,7 @@ import Iec.Props.C09
 import Iec.Props.C14
 import Iec.Lemmas.Reasm
 import Iec.Lemmas.FileSrvSafety
+import Iec.Gen.Consts104
 namespace Iec.Props.C10
 open Iec.Asdu Iec.Layout
 
@@ -101,5 +102,11 @@ theorem link_reject_is_silent (s : SecU) (now n : Nat)
     Iec.Props.C14.Quiet (s.parse now n).2 ∧ (s.parse now n).1.ll = s.ll ∧ (s.parse now n).1.c1 = s.c1 ∧
     (s.parse now n).1.c2 = s.c2 ∧ (s.parse now n).1.expectedFcb = s.expectedFcb :=
   Iec.Props.C14.secU_reject_is_silent s now n h
+
+/-- the bound of `receive_buffer_bounded` (257 octets) is below the size of the receive buffer in the compiled source,
+and a complete APDU (APCI + largest ASDU) fits the send buffer (translator tie, regenerated on every run) -/
+theorem buffers_fit_source :
+    257 < Iec.Gen.recvBufferSize ∧ Iec.Gen.apciLength + Iec.Gen.maxAsduLength ≤ Iec.Gen.sendBufferSize := by
+  decide
 
 end Iec.Props.C10
